@@ -45,6 +45,11 @@ def fd_jac(f, x, hrel=1e-4):
     R1 = (4 * D2 - D1) / 3
     R2 = (4 * D3 - D2) / 3
     err = np.abs(R2 - R1)
+    # rounding part of the oracle's uncertainty: the function values carry eps*|f|, the smallest step is h/4 and the
+    # extrapolation amplifies by 5/3 (matters only for large |f| or tiny steps; found by the thorough tier of C04)
+    f0 = np.abs(np.asarray(f(x), dtype=float))
+    hmin = (h / 4) if isinstance(h, np.ndarray) else np.full(x.shape, h / 4)
+    err = err + 8 * np.finfo(float).eps * np.multiply.outer(f0, 1.0 / hmin)
     return R2, err
 
 
@@ -132,7 +137,9 @@ def path_derivative(f, hrel=1e-4, scale=1.0):
     D1, D2, D3 = cd(h), cd(h / 2), cd(h / 4)
     R1 = (4 * D2 - D1) / 3
     R2 = (4 * D3 - D2) / 3
-    return R2, np.abs(R2 - R1)
+    # truncation estimate + rounding of the function values (eps*|f| over the smallest step h/4, amplified by the extrapolation)
+    f0 = np.abs(np.asarray(f(0.0), dtype=float))
+    return R2, np.abs(R2 - R1) + 8 * np.finfo(float).eps * f0 / (h / 4)
 
 
 def check_rate(ctx, site, claimed, f_of_s, floor=1e-6, hrel=1e-4, scale=1.0, key_fn=None, mon=None, extra=None):
